@@ -286,10 +286,11 @@ class Ref:
 
 
 class FnVal:
-    def __init__(self, path, closure=False, captures=None):
+    def __init__(self, path, closure=False, captures=None, targs=None):
         self.path = path
         self.closure = closure
         self.captures = captures
+        self.targs = targs or []        # names of the generic arguments of a function item (`<Backend as Instructions<..>>::add` -> ["Backend", ..])
 
     def __repr__(self):
         return "fn:" + self.path
@@ -480,7 +481,8 @@ class Interp:
             if "bytes" in o:
                 return Bytes(o["bytes"])
             if "fn" in o:
-                return FnVal(o.get("fn_res") or o["fn"])
+                targs = [x.split("/")[0].strip() for x in (o.get("fn_args") or "").strip("[]").split(",") if x.strip()]
+                return FnVal(o.get("fn_res") or o["fn"], targs=targs)
             if "closure" in o:
                 return FnVal(o["closure"], closure=True)
             if "promoted" in o:
@@ -846,6 +848,18 @@ class Interp:
                 vdef = [v_ for v_ in A["variants"] if v_["name"] == last][0]
                 if len(vdef["fields"]) == len(args):
                     return self._finish_call(fr, t, Adt(owner, last, {f_["name"]: a_ for f_, a_ in zip(vdef["fields"], args)}))
+        if key is None and isinstance(fv, FnVal) and fv.targs and fv.targs[0] in self.type_env and "::" in fv.path:
+            # a trait method of a generic parameter taken as a value (`let op = Backend::add; op(..)`), at a known instance
+            trait_, mname = fv.path.rsplit("::", 1)
+            inst = self.type_env[fv.targs[0]]
+            for imp in self.fx.impls:
+                if imp.get("trait") == trait_ and imp.get("self_adt") == inst:
+                    for m in imp["methods"]:
+                        if m["name"] == mname and m["key"] in self.fx.fns:
+                            key = m["key"]
+            if key is None and fv.path in self.fx.fns:
+                key = fv.path
+                self_adt = inst
         if key is None and isinstance(fv, FnVal):
             cands = self.fx.by_path.get(fv.path) or []
             cands = [c for c in cands if "{promoted" not in c["key"]]
@@ -870,7 +884,7 @@ class Interp:
                 aty = fr.f["locals"][a_op["pl"]["l"]]["ty"] if not a_op["pl"]["p"] else ""
                 if aty.startswith("&mut "):
                     try:
-                        self.write_ref(a_val, Unknown("written by %s, which the interpreter cannot follow" % (t.get("callee_name") or "?")))
+                        self.write_ref(self._cell_of(a_val), Unknown("written by %s, which the interpreter cannot follow" % (t.get("callee_name") or "?")))
                     except Exception:       # noqa: BLE001
                         pass
         if os.environ.get("VERIF_TRACE_UNKNOWN"):
@@ -1455,6 +1469,10 @@ def std_model(I, p, fr, t, args):
                 r_ = I.call_value(f1, [v], depth)
                 if isinstance(r_, bool):
                     return r_
+            if n == "map_or_else" and isinstance(f1, FnVal) and len(args) > 2 and isinstance(args[2], FnVal):
+                return I.call_value(args[2], [v], depth) if some else I.call_value(f1, [], depth)
+            if n == "map_or" and len(args) > 2 and isinstance(args[2], FnVal):
+                return I.call_value(args[2], [v], depth) if some else args[1]
             if n == "map" and isinstance(f1, FnVal):
                 return Adt(OPT, "Some", {"0": I.call_value(f1, [v], depth)}) if some else Adt(OPT, "None", {})
             if n == "and_then" and isinstance(f1, FnVal):
